@@ -234,3 +234,11 @@ def delivery_is_history_independent(H, case):
     H.check("no_delivery_raises", exc is None and exc2 is None and exc3 is None)
     H.check("same_as_fresh_multictl", H.eq(got, want))
     H.cover("reached")
+
+
+@contract("fanout_canary", ["C20"], targets=_T[:2], canary=True)
+def fanout_canary(H, _):
+    """False claim: the delivered Amplifier.volume never reaches the maximum."""
+    value = H.int("value", 0, 32768)
+    exc, got, _t = _deliver(H, "Amplifier", "volume", value, 256, 0, 32768)
+    H.check("canary_never_reaches_maximum", got < 1024)
